@@ -570,7 +570,45 @@ def r15_8(ctx):
     ctx.expect_assign('R15.8', fk, 'bs', 'tuple((kv1.numdofs, kv0.numdofs) for (kv0, kv1) in zip(kvs0, kvs1))', 'block sizes (test space rows, trial space columns)')
 
 
+def r15_9(ctx):
+    """Local row numbers returned with renumber_rows=True are positions in the CALLER's list: the parameter row_indices is not
+    replaced by a subset of itself before np.arange(len(row_indices)) numbers the rows (kron_partial(.., restrict=True) places
+    row i of the result by that number)."""
+    f = ctx.prog.func(PY + '.MLStructure.nonzeros_for_rows')
+    par = 'row_indices'
+    if par not in [a.arg for a in f.node.args.args]:
+        ctx.undecided('R15.9', f.qual, 'parameter row_indices', f.node, 'parameter renamed')
+        return
+    uses = [c for c in ast.walk(f.node) if isinstance(c, ast.Call) and call_name(c) in ('np.arange', 'range')
+            and c.args and isinstance(c.args[0], ast.Call) and call_name(c.args[0]) == 'len' and src(c.args[0].args[0]) == par]
+    rebinds = [s_ for s_ in own_nodes(f.node) if isinstance(s_, ast.Assign) and any(isinstance(t, ast.Name) and t.id == par for t in s_.targets)]
+    bad = []
+    for s_ in rebinds:
+        v = s_.value
+        conv = isinstance(v, ast.Call) and (call_name(v) or '').split('.')[-1] in ('asarray', 'asanyarray', 'array', 'list', 'tuple', 'ascontiguousarray') \
+            and v.args and src(v.args[0]) == par
+        if conv:
+            continue
+        selects = any(isinstance(x, ast.Subscript) and not isinstance(x.slice, ast.Constant) and par in src(x.value) for x in ast.walk(v)) or \
+            any(isinstance(x, (ast.ListComp, ast.GeneratorExp)) and any(g.ifs for g in x.generators) for x in ast.walk(v))
+        bad.append((s_, selects))
+    if not uses:
+        ctx.undecided('R15.9', f.qual, 'np.arange(len(row_indices))', f.node, 'local numbering not recognised')
+        return
+    sel = [b for b in bad if b[1] and b[0].lineno < uses[0].lineno]
+    if sel:
+        ctx.violated('R15.9', f.qual, src(sel[0][0]), sel[0][0],
+                     'the parameter is replaced by a selection of itself before the local numbering np.arange(len(row_indices)) is taken: the '
+                     'returned local row numbers are positions in the filtered list, not in the list the caller passed -- rows after a dropped '
+                     'entry are shifted')
+    elif bad:
+        ctx.undecided('R15.9', f.qual, src(bad[0][0]), bad[0][0], 'parameter rebound in a form that is not recognised')
+    else:
+        ctx.met('R15.9', f.qual, src(uses[0]), uses[0], 'numbering refers to the list as passed by the caller')
+
+
 def run(ctx):
+    r15_9(ctx)
     r15_8(ctx)
     r15_1(ctx)
     r15_2(ctx)
